@@ -415,6 +415,10 @@ def apply_lemma(ex, e, st, L):
     k = ex.ordinal("lemma:" + L["name"])
     t = st.clone()
     t.env = dict(zip(names, vals))
+    for p_, allowed in L.get("split", {}).items():        # the lemma was proved for these values of p_ only
+        arg = toint(t.env[p_])
+        if lit(arg) is None or lit(arg) not in allowed:
+            ex.prove(st, f"lemma{k}:{L['name']}:proved-instance:{p_}", z3.Or(*[arg == v for v in allowed]), e.lineno)
     for label, txt in L.get("requires", {}).items():
         ex.quiet += 1
         g = tobool(ex.ev(speclang.parse(txt), t.clone()))
